@@ -94,6 +94,8 @@ namespace igris
             uint16_t size;
             igris::deserialize(keeper, size);
 
+            // the decoded value replaces what the destination held
+            vec.clear();
             for (int i = 0; i < size; i++)
             {
                 T value;
@@ -122,6 +124,8 @@ namespace igris
             uint16_t size;
             igris::deserialize(keeper, size);
 
+            // the decoded value replaces what the destination held
+            map.clear();
             for (int i = 0; i < size; i++)
             {
                 // typename std::map<K,T>::value_type pair;
